@@ -106,6 +106,7 @@ func runOne(prop string, se simEntry, tier string, src *tape.Source, st *Stats) 
 		}
 	}()
 	se.fn(c)
+	canaryCheck(c)
 	return nil, c
 }
 
@@ -153,6 +154,7 @@ func main() {
 		os.Exit(2)
 	}
 	limitAddressSpace()
+	canaryBaseline = canaryNow()
 	switch os.Args[1] {
 	case "run":
 		cmdRun(os.Args[2:])
@@ -255,24 +257,53 @@ func cmdRun(args []string) {
 		orig := src.Recorded()
 		class := viol.Class + "|" + viol.Property
 		test := func(t *tape.Tape) bool {
+			if *budget > 0 && time.Since(t0) > *budget+8*time.Second {
+				return false // out of time: keep the smallest failing tape found so far (it is re-verified below)
+			}
 			runStart.Store(time.Now().UnixNano()) // the watchdog is per execution, not per run index
 			v, _ := runOne(*prop, se, *tier, tape.NewReplayer(t), NewStats())
 			return v != nil && v.Class+"|"+v.Property == class
 		}
+		origOK := func() bool {
+			runStart.Store(time.Now().UnixNano())
+			v, _ := runOne(*prop, se, *tier, tape.NewReplayer(orig), NewStats())
+			return v != nil && v.Class+"|"+v.Property == class
+		}
+		stateful := viol.Class == "process-state-changed" // nothing executed in this process can be trusted any more
 		noisy := viol.Class == "excessive-allocation" // decided on a measured quantity: failing to reproduce is inconclusive, not a harness fault
-		if !test(orig) {
+		if stateful || !origOK() {
 			if noisy {
 				emit(outLine{T: "inconclusive", I: i, Msg: viol.Detail})
 				continue
 			}
-			emit(outLine{T: "nondeterministic", I: i, Msg: "violation did not reproduce from its own recorded tape: " + viol.Detail})
-			continue
+			// Re-executing the same tape in this process did not fail the same way. The run itself is a
+			// pure function of its tape, so the process must carry state over from one execution to
+			// the next - which is what C20 forbids the library to have. The driver decides: it replays
+			// the recorded tape in a fresh process; this process is no longer trustworthy and exits.
+			rp := &tape.Replay{Property: viol.Property, Sim: se.name, Seed: *seed, Index: i, SubSeed: sub, Tier: *tier, Knobs: c.Knobs,
+				Class: viol.Class, Signature: viol.Signature, Detail: viol.Detail, EventHash: c.EventHash(), Tape: orig,
+				OrigLen: orig.Len(), MinLen: orig.Len(), Trace: c.Trace,
+				Extra: map[string]string{"check_property": *prop, "needs_fresh_process": "1"}}
+			file := ""
+			if *replays != "" {
+				file = filepath.Join(*replays, fmt.Sprintf("%s-%s-%d-%d.json", *prop, se.name, *seed, i))
+				if err := rp.Write(file); err != nil {
+					fmt.Fprintln(os.Stderr, err)
+					os.Exit(2)
+				}
+			}
+			emit(outLine{T: "suspect", I: i, Sim: se.name, Viol: rp, File: file})
+			f.Close()
+			os.Exit(79)
 		}
-		budget := *shrinkTests
-		if *prop == "C17" && budget > 250 {
-			budget = 250 // decodes of hostile records can be slow; tapes here are short
+		nShrink := *shrinkTests
+		if *prop == "C17" && nShrink > 250 {
+			nShrink = 250 // decodes of hostile records can be slow; tapes here are short
 		}
-		min, tests := tape.Shrink(orig, test, budget)
+		if *prop == "C20" && nShrink > 400 {
+			nShrink = 400 // five executions per attempt, two of them under the race detector
+		}
+		min, tests := tape.Shrink(orig, test, nShrink)
 		runStart.Store(time.Now().UnixNano())
 		v1, c1 := runOne(*prop, se, *tier, tape.NewReplayer(min), NewStats())
 		v2, c2 := runOne(*prop, se, *tier, tape.NewReplayer(min), NewStats())
